@@ -4,7 +4,9 @@ Streams (``case["kind"]``):
 
 * ``sampler``  — the real ``BucketBatchSampler`` (+ ``_get_batch_sampler_len``) driven directly
   with arbitrary ``idx2bucket`` / ``bucket2size`` maps over arbitrary sampler orders
-  (exhaustive for small sizes, plus a malformed stream: missing keys, size 0).
+  (exhaustive for small sizes, plus a malformed stream: missing keys, size 0), over a stub
+  sampler, a plain list or the library's own epoch samplers; repeated, abandoned and
+  interleaved (two live iterators) passes.
 * ``params``   — ``_get_bucket_batch_sampler_params`` on arbitrary length lists.
 * ``window``   — ``extract_window`` (exhaustive for small T / left / right).
 * ``lang`` / ``spect`` / ``cw`` — the three collate functions called directly.
@@ -13,7 +15,8 @@ Streams (``case["kind"]``):
   loaders (SpectDataLoader, LangDataLoader, ContextWindowDataLoader and the four deprecated
   classes) given a path or a data-set object, merged or split parameter objects, options passed
   or left to the class defaults, driven through a sequence of operations (k epochs, a jump of
-  ``loader.epoch``, an abandoned iteration, a rewind), optionally under a simulated process
+  ``loader.epoch``, an abandoned iteration, an interleaved section with several live iterators,
+  ``len()`` and look-ups of other epochs in the middle of passes, a rewind), optionally under a simulated process
   group with every ``on_uneven_distributed`` mode, a few with worker processes; the Lean model
   (C13's sampler model + the ``Loader`` object model) gets the whole-data-set ordering of each
   epoch computed here with numpy, never from the library.
@@ -321,8 +324,10 @@ class C14(PropertyCheck):
     pid = "C14"
     rule = ("streams: sampler (BucketBatchSampler driven directly; exhaustive over n<=4 indices x 3 buckets x "
             "sizes 1..3 x drop, random larger with int / negative / string / tuple bucket ids, drop_incomplete "
-            "omitted, a plain list as sampler, malformed maps; every run = len, two full passes, a pass "
-            "abandoned after its first batch with len() in the middle, a further full pass), params "
+            "omitted, a plain list or the library's EpochRandomSampler / EpochSequentialSampler as sampler, "
+            "malformed maps; every run = len, two full passes, a pass abandoned after its first batch with len() "
+            "in the middle, a further full pass, two passes alive at once advanced alternately with len() and a "
+            "look-up of another epoch after the first batch, both continued to their end), params "
             "(_get_bucket_batch_sampler_params on length lists with ties, over every element layout of the "
             "data sets), window (extract_window exhaustive T<=4, left/right<=3 + other widths, contexts up to "
             "9, strided / transposed / float64 / int64 inputs, input unchanged), lang/spect/cw (collate "
@@ -334,7 +339,10 @@ class C14(PropertyCheck):
             "options passed or left to the class defaults incl. an undrawn seed under torch.manual_seed, "
             "every on_uneven_distributed mode under simulated world sizes 2 and 3, rejected keywords, "
             "pin_memory, 1-2 worker processes; operations: k epochs, jump of loader.epoch, abandoned "
-            "iteration, rewind, fresh loader at the last epoch). non-trivial: >= 2 buckets in use or an "
+            "iteration, an interleaved section - up to three iter(loader) objects alive at once and advanced "
+            "alternately, len(loader) / sampler.get_samples_for_epoch(e') / loader.epoch = e' after the first, "
+            "any, every batch of passes that are continued to their end -, rewind, fresh loader at the last "
+            "epoch). non-trivial: >= 2 buckets in use or an "
             "incomplete batch (sampler/loader), a padded row (collate), an edge-padded window; distinct by "
             "the case dict")
     assumptions = [
@@ -385,11 +393,20 @@ class C14(PropertyCheck):
         for _ in range(nrand):
             n = rng.randrange(0, 14)
             nb = rng.randrange(1, 5)
-            ids = rng.sample(range(0, 40), n)
-            order = list(ids)
-            if n and rng.random() < 0.15:          # a sampler may repeat an index
-                order += [rng.choice(ids) for _ in range(rng.randrange(1, 4))]
-            rng.shuffle(order)
+            real = rng.choice((None, None, None, None, "epoch_random", "epoch_random", "epoch_seq"))
+            if real:                                # the library's epoch samplers underneath
+                ids = list(range(n))
+                seed, E = rng.randrange(1, 1000), rng.choice((0, 0, 1, 7))
+                order = list(ids)
+                if real == "epoch_random":
+                    import numpy as np
+                    order = [int(x) for x in np.random.RandomState((seed, E)).permutation(n)]
+            else:
+                ids = rng.sample(range(0, 40), n)
+                order = list(ids)
+                if n and rng.random() < 0.15:          # a sampler may repeat an index
+                    order += [rng.choice(ids) for _ in range(rng.randrange(1, 4))]
+                rng.shuffle(order)
             bids = rng.sample(range(0, 9), nb)
             i2b = [[i, rng.choice(bids)] for i in ids]
             b2s = [[b, rng.randrange(1, 6)] for b in bids]
@@ -400,7 +417,9 @@ class C14(PropertyCheck):
                 case["idkind"] = kind       # bucket ids are any sortable hashables
             if not case["drop"] and rng.random() < 0.2:
                 case["drop_omitted"] = True
-            if rng.random() < 0.12:
+            if real:
+                case.update(sampler=real, seed=seed, epoch=E)
+            elif rng.random() < 0.12:
                 case["sampler"] = "plain"   # any collection of indices; len() then is not defined
             r = rng.random()
             if r < 0.06 and i2b:
@@ -714,9 +733,9 @@ class C14(PropertyCheck):
         args = (smp, i2b, b2s) + (() if case.get("drop_omitted") else (case["drop"],))
         bs = BucketBatchSampler(*args)
 
-        def rewind():
+        def rewind(e=E):
             if real:
-                smp.epoch = E
+                smp.epoch = e
 
         def length():
             if plain:
@@ -727,9 +746,9 @@ class C14(PropertyCheck):
             except Exception as e:
                 return {"err": type(e).__name__}
 
-        def full():
+        def full(e=E):
             out, err = [], None
-            rewind()
+            rewind(e)
             try:
                 for b in bs:
                     out.append([int(x) for x in b])
@@ -751,7 +770,9 @@ class C14(PropertyCheck):
             pass
         third, err3 = full()
         # two passes alive at once, advanced alternately, len() (and, with a library sampler, a look-up
-        # of another epoch) asked after the first batch; BOTH are continued to their end
+        # of another epoch) asked after the first batch; BOTH are continued to their end. With a
+        # library sampler the second pass is the NEXT epoch's (a lone pass over it is the reference).
+        out_b, err_b = full(E + 1) if real else (out, err)
         got, errs, mid2, other = [[], []], [None, None], None, None
         rewind()
         it_a = iter(bs)
@@ -767,7 +788,7 @@ class C14(PropertyCheck):
         mid2 = length()
         if real:
             other = sorted(int(x) for x in smp.get_samples_for_epoch(E + 3))
-        rewind()
+        rewind(E + 1)
         it_b = iter(bs)
         live.append(it_b)
         turn = 0
@@ -784,14 +805,14 @@ class C14(PropertyCheck):
             except Exception as e:
                 errs[which] = type(e).__name__
                 live.remove(it)
-        woven = (got[0] == out and got[1] == out and errs == [err, err] and mid2 == ln
+        woven = (got[0] == out and got[1] == out_b and errs == [err, err_b] and mid2 == ln
                  and (other is None or other == list(range(len(case["order"])))))
         return {"batches": out, "err": err, "len": ln, "repeatable": again == out and err == err2,
                 "after_abandon": third == out and err3 == err and mid == ln
                 and (first is None or (bool(out) and [int(x) for x in first] == out[0])),
                 "interleaved": woven,
-                "interleaved_detail": None if woven else {"a": got[0], "b": got[1], "errs": errs, "len": mid2,
-                                                          "other_epoch": other}}
+                "interleaved_detail": None if woven else {"a": got[0], "b": got[1], "b_alone": out_b, "errs": errs,
+                                                          "len": mid2, "other_epoch": other}}
 
     # ---- params
     def impl_params(self, case):
@@ -2037,6 +2058,8 @@ class C14(PropertyCheck):
                 t.append("drop=omitted")
             if case.get("sampler") == "plain":
                 t.append("sampler=plain_list")
+            elif case.get("sampler"):
+                t.append("sampler=library_" + case["sampler"])
         elif k == "window":
             t.append(f"window.layout={case.get('layout', 'contig')}")
         elif k == "params":
@@ -2066,6 +2089,18 @@ class C14(PropertyCheck):
             for k in ("with_ali", "with_ref"):
                 if not case.get(k, True):
                     t.append(f"without={k[5:]}_dir")
+            w = case.get("weave") or []
+            if w:
+                kinds = [x[0] for x in w]
+                mid = [i for i, x in enumerate(kinds) if x in ("len", "peek")
+                       and "next" in kinds[:i] and ("next" in kinds[i:] or "drain" in kinds[i:])]
+                if any(kinds[i] == "len" for i in mid):
+                    t.append("interleaved=len_mid_pass")
+                if any(kinds[i] == "peek" for i in mid):
+                    t.append("interleaved=lookup_mid_pass")
+                t.append(f"interleaved=live_iterators_{min(kinds.count('open'), 3)}")
+                if "set" in kinds[1:]:
+                    t.append("interleaved=epoch_assignment")
             if case.get("jump") is not None:
                 e_end = o["init_epoch"] + case["epochs"]
                 t.append("jump=" + ("back" if case["jump"] < e_end else "forward" if case["jump"] > e_end else "same"))
@@ -2084,6 +2119,8 @@ class C14(PropertyCheck):
         k = case["kind"]
         if k == "sampler":
             for i in range(len(case["order"])):
+                if case.get("sampler", "").startswith("epoch"):
+                    break       # the order is the library sampler's own: it cannot be edited
                 c = dict(case)
                 c["order"] = case["order"][:i] + case["order"][i + 1:]
                 yield c
@@ -2115,9 +2152,19 @@ class C14(PropertyCheck):
                 c["lens"] = case["lens"][:i] + case["lens"][i + 1:]
                 c["rlens"] = case["rlens"][:i] + case["rlens"][i + 1:]
                 yield c
+            w = case.get("weave") or []
+            for i in range(len(w)):     # one operation of the interleaved section less (if still a script)
+                cand, n_it, ok = w[:i] + w[i + 1:], 0, True
+                for x in cand:
+                    n_it += x[0] == "open"
+                    ok = ok and not (x[0] in ("next", "drain") and x[1] >= n_it)
+                if ok:
+                    c = dict(case)
+                    c["weave"] = cand
+                    yield c
             for f in ("omit", "data_as", "split_params", "legacy_params", "subset", "sos", "eos", "mvn",
                       "delta", "pin_memory", "prefix", "suffix", "subdirs", "with_ali", "with_ref", "jump",
-                      "abandon", "num_workers", "subset_via_loader_params", "via_kwargs"):
+                      "abandon", "num_workers", "subset_via_loader_params", "via_kwargs", "weave"):
                 if f in case:
                     c = dict(case)
                     del c[f]
